@@ -61,6 +61,12 @@ def run(ctx):
             mk = lambda: {'t': rnd.choice([0, 1, 86400, 1000000000, -1, 1.5, 1700000000]), 'f': rnd.choice(['%Y-%m-%d', '%H:%M:%S', '%Y', '%s', '%A %B', '%Y-%m-%dT%H:%M:%S%.f']),
                           's': rnd.choice(['2020-01-02', '12:34:56', '1999', '2020-01-02T03:04:05.25', 'x'])}
             A = [mk() for _ in range(rnd.randint(1, 5))]; B = [mk() for _ in range(rnd.randint(1, 5))]
+        if i % 12 == 1:
+            # local bindings (define / set) whose body yields nothing for some records, next to --set bindings of the same names: a
+            # local binding ends with its body, whatever the body yields
+            cfg = lib.new_cfg(set=['@m=.a', 'v=1'], select=['(define "m" .k (get .o @m))=d', '@m=vm', '(set "v" 2 (get .o (? (= .a 1) "x" "zz")))=s', ':v=vv', '(define "m" .b (? (= .a 2) @m null))=d2', '(@ "m")=vm2'])
+            mk = lambda: dict([('a', rnd.choice([1, 2, 3])), ('o', {'x': 1, 'y': 2})] + ([('k', rnd.choice(['x', 'y', 'nokey', 5]))] if rnd.random() < 0.7 else []) + ([('b', rnd.choice(['B', 7]))] if rnd.random() < 0.6 else []))
+            A = [mk() for _ in range(rnd.randint(2, 8))]; B = [mk() for _ in range(rnd.randint(2, 8))]
         if i % 12 == 3:
             # boolean functions whose arguments change type from record to record (true / false / not a boolean / absent): the value
             # for one record must not depend on which argument decided for the record before
